@@ -1,4 +1,6 @@
 import astload
+import eigencw
+import hooks as nvhooks
 from core import Fn, Target, VC
 
 DRV = 'drivers/inst_wlearner.cpp'
@@ -71,9 +73,9 @@ TABLE_CALLS = WL_CALLS + [(r'^find\|nano::tensor_size_t \(const nano::hashes_t &
                           (r'^ctor\|nano::tensor_t<nano::tensor_carray_storage_t, long, 1>\|', '{0}')]   # indices_cmap_t(indices_t): same view
 
 
-def size0_hook(tu):
+def size0_hook(tu, total_ok=False):
     """tensor.size<0>() on a rank-4 tensor -> .rows; the template argument is not in the JSON dump, so the hook reads it
-    from the source text of the call and refuses anything but <0>"""
+    from the source text of the call and refuses anything but <0> (total_ok: a plain size() is left to the members table)"""
     import re
 
     def h(P, n):
@@ -84,6 +86,8 @@ def size0_hook(tu):
             return None
         b, e = astload.source_text(n)
         text = open(astload.resolve_tu(tu), 'rb').read()[b:e].decode()
+        if total_ok and re.search(r'size\s*\(\s*\)$', text):
+            return None
         if not re.search(r'size\s*<\s*0\s*>\s*\(\s*\)$', text):
             from cxx2c import Unsupported
             raise Unsupported(f'rank-4 size call that is not size<0>(): {text!r}')
@@ -173,6 +177,150 @@ def util_fns():
     return dict(scale=scale, sfw_scale=sfw_scale, merge=merge, merge_pred=merge_pred)
 
 
+UP = r'std::unique_ptr<nano::wlearner_t'
+TM_TYPES = [(r'^nano::rwlearner_t$|^' + UP + r'[^:]*>$', 'struct nv_rwl'),
+            (r'^nano::(table_|affine_|single_feature_)?wlearner_t$|' + UP + r'.*>::pointer$', 'struct nv_wlobj'),
+            (r'^nano::tensor4d_t$|tensor_t<nano::tensor_vector_storage_t, double, 4>', 'struct nv_t4m'),
+            (r'^nano::tensor4d_dims_t$|^nano::tensor_dims_t<4>$|^std::array<long, 4', 'struct nv_dims4'),
+            (r'^nano::hashes_t$|tensor_t<nano::tensor_vector_storage_t, unsigned long, 1>', 'struct nv_t1u'),
+            (r'^nano::indices_t$|tensor_t<nano::tensor_vector_storage_t, long, 1>', 'struct nv_t1i'),
+            (r'Eigen::Map<(const )?Eigen::Matrix<double, -1, 1', 'struct nv_vec')]
+TM_CALLS = [(r'^dynamic_cast\|nano::table_wlearner_t \*\|nano::wlearner_t \*', 'nv_dyncast_table({0})'),
+            (r'^dynamic_cast\|nano::affine_wlearner_t \*\|nano::wlearner_t \*', 'nv_dyncast_affine({0})'),
+            (r'^dynamic_cast\|nano::single_feature_wlearner_t \*\|nano::wlearner_t \*', 'nv_dyncast_sfw({0})'),
+            (r'^operator==\|bool \(const tensor_dims_t<4UL> &, const tensor_dims_t<4UL> &\)', 'nv_dims4_eq'),
+            (r'^operator==\|.*\|nano::tensor_t<nano::tensor_vector_storage_t, unsigned long, 1>', 'nv_t1u_eq'),
+            (r'^operator==\|.*\|nano::tensor_t<nano::tensor_vector_storage_t, long, 1>', 'nv_t1i_eq'),
+            (r'^operator\+=\|.*\|Eigen::MatrixBase<Eigen::Map<Eigen::Matrix<double, -1, 1, 0>, 0>\s*>', 'nv_vec_add({&0}, {1})')]
+TM_MEMBERS = [(r'^get\|' + UP, '{self}->ptr'), (r'^size\|nano::tensor_base_t<(unsigned )?long, 1', '{self}->n'),
+              (r'^dims\|nano::tensor_base_t<double, 4', '{self}->dims'),
+              (r'^vector\|nano::tensor_t<nano::tensor_vector_storage_t, double, 4>', 'nv_t4m_vector'),
+              (r'^hashes\|nano::table_wlearner_t', '(*{self}).m_hashes'), (r'^hash2tables\|nano::table_wlearner_t', '(*{self}).m_hash2tables'),
+              (r'^tables\|nano::single_feature_wlearner_t', '(*{self}).m_tables'),
+              (r'^feature\|nano::single_feature_wlearner_t', 'sfw_feature'),
+              (r'^do_try_merge\|nano::single_feature_wlearner_t', 'sfw_do_try_merge')]
+
+
+def try_merge_fns():
+    """the try_merge implementations: the base class default, the single-feature helper, tables and affine"""
+    k = dict(self_struct='struct nv_wlobj', types=TM_TYPES, calls=TM_CALLS, members=TM_MEMBERS)
+    return dict(base=Fn('base_try_merge', 'src/wlearner.cpp', 'try_merge', flt='wlearner_t::try_merge', **k),
+                helper=Fn('sfw_do_try_merge', 'src/wlearner/single.cpp', 'do_try_merge', flt='single_feature_wlearner_t::do_try_merge', **k),
+                table=Fn('table_try_merge', TABLE_CPP, 'try_merge', flt='table_wlearner_t::try_merge', **k),
+                affine=Fn('affine_try_merge', 'src/wlearner/affine.cpp', 'try_merge', flt='affine_wlearner_t::try_merge', **k),
+                feature=Fn('sfw_feature', 'src/wlearner/single.cpp', 'feature', flt='single_feature_wlearner_t::feature', **k))
+
+
+LIN_TYPES = [(T1I, 'struct nv_t1i'), (r'^nano::dataset_t$', 'struct nv_dataset'), (r'^nano::cluster_t$', 'struct nv_cluster'),
+             (r'^nano::tensor4d_map_t$|tensor_t<nano::tensor_marray_storage_t, double, 4>', 'struct nv_outm'),
+             (r'^Eigen::Map<\s*(const )?Eigen::Matrix<double, -1, 1', 'struct nv_rv'), (r'^nano::hinge_type$', 'uint8_t')]
+LIN_CALLS = [(r'^operator\(\)\|typename tbase::tconstref \(const nano::tensor_size_t\) const\|', '{0}.p[{1}]'),
+             (r'^ctor\|nano::tensor_t<nano::tensor_vector_storage_t, long, 1>\|', '{0}'),     # indices_t(indices_cmap_t): same view
+             (r'^ctor\|nano::cluster_t\|void \(nano::tensor_size_t, nano::tensor_size_t\)', 'nv_cluster_make({0}, {1})')]
+LIN_MEMBERS = [(r'^vector\|nano::tensor_t<nano::tensor_marray_storage_t, double, 4>', 'nv_out_vector'),
+               (r'^vector\|nano::single_feature_wlearner_t', 'nv_lin_vector'),
+               (r'^feature\|nano::single_feature_wlearner_t', 'sfw_feature'),
+               (r'^assign\|nano::cluster_t', 'nv_cluster_assign'), (r'^samples\|nano::dataset_t', 'nv_dataset_samples')]
+
+
+def linear_fns(cls):
+    """affine / hinge: do_predict, do_split and every lambda they hand to loop_scalar (2 + 1 for the hinge, 1 + 1 affine)"""
+    cpp = f'src/wlearner/{cls}.cpp'
+    mk = lambda me='struct nv_lin': dict(self_struct=me, types=LIN_TYPES, calls=LIN_CALLS, members=LIN_MEMBERS,
+                      stmt_hooks=[eigencw.hook('struct nv_rv', dest=[r'^Eigen::Map<Eigen::Matrix<double, -1, 1'], scalars=True)])
+    out = {}
+    for which, nlam in (('predict', 2 if cls == 'hinge' else 1), ('split', 1)):
+        owner = f'do_{which}'
+        flt = f'{cls}_wlearner_t::{owner}'
+        out[which] = [Fn(f'{cls}_{owner}', cpp, owner, flt=flt, hooks=[nvhooks.lambda_call_hook('loop_scalar', f'nv_ls_{cls}_{which}')], **mk())]
+        for k in range(nlam):
+            name = f'{cls}_{which}_lambda' + (str(k) if nlam > 1 else '')
+            # the affine lambdas do not capture `this`, the hinge ones do (m_threshold, m_hinge)
+            out[which].append(Fn(name, cpp, owner, flt=flt, lambda_index=k, captures=True, **mk('struct nv_lin' if cls == 'hinge' else None)))
+        out[which].append(Fn('sfw_feature', 'src/wlearner/single.cpp', 'feature', flt='single_feature_wlearner_t::feature',
+                             self_struct='struct nv_lin', types=LIN_TYPES))
+    return out
+
+
+DTREE_CPP = 'src/wlearner/dtree.cpp'
+PAIR = r'std::pair<unsigned long, nano::tensor_t<nano::tensor_vector_storage_t, long, 1>\s*>'
+DT_TYPES = [(r'^nano::dataset_t$', 'struct nv_dataset'), (r'^nano::cluster_t$', 'struct nv_clu'),
+            (r'^nano::indices_t$|^nano::tensor_t<nano::tensor_vector_storage_t, long, 1>$', 'struct nv_ixs'),
+            (r'^nano::indices_cmap_t$|^nano::tensor_t<nano::tensor_carray_storage_t, long, 1>$', 'struct nv_t1i'),
+            (r'^std::deque<' + PAIR, 'struct nv_dq'), (r'^' + PAIR + r'$|^std::deque<.*>::value_type$', 'struct nv_split'),
+            (r'^nano::dtree_node_t$|^std::vector<nano::dtree_node_t>::value_type$|__alloc_traits<std::allocator<nano::dtree_node_t>, nano::dtree_node_t>::value_type$', 'struct nv_node'),
+            (r'^nano::dtree_nodes_t$|^std::vector<nano::dtree_node_t>$', 'struct nv_nodes'),
+            (r'^nano::tensor4d_t$|^nano::tensor4d_map_t$|tensor_t<nano::tensor_(marray|vector)_storage_t, double, 4>', 'struct nv_t4'),
+            (ROW, 'struct nv_row')]
+DT_CALLS = [(r'^operator\[\]\|.*\|std::vector<nano::dtree_node_t', '(*nv_node_at({&0}, {1}))'),
+            (r'^split\|nano::cluster_t \(const nano::dataset_t &, const nano::indices_t &, nano::tensor_size_t, nano::scalar_t\)',
+             'nv_dt_stump_split({&0}, {&1}, {2}, {3}, self)'),
+            (r'^ctor\|nano::cluster_t\|void \(nano::tensor_size_t, nano::tensor_size_t\)', 'nv_clu_make({0}, {1})')]
+DT_MEMBERS = [(r'^size\|std::vector<nano::dtree_node_t', '{self}->n'),
+              (r'^size\|nano::tensor_base_t<double, 4.*\|#0$', 'nv_t4_size'),
+              (r'^samples\|nano::dataset_t', 'nv_dataset_samples'),
+              (r'^emplace_back\|std::deque<', 'nv_dq_push({self}, {0}, {&1}, self)'), (r'^empty\|std::deque<', '({self}->n == 0)'),
+              (r'^front\|std::deque<', 'nv_dq_front({self}, self)'), (r'^pop_front\|std::deque<', 'nv_dq_pop'),
+              (r'^samples\|nano::cluster_t', '{self}->samples'), (r'^groups\|nano::cluster_t', '{self}->groups'),
+              (r'^group\|nano::cluster_t', 'nv_clu_group'), (r'^indices\|nano::cluster_t', 'nv_clu_indices'),
+              (r'^assign\|nano::cluster_t', 'nv_clu_assign({self}, {0}, {1}, self)')]
+
+
+def dtree_fns():
+    # size0_hook: `m_tables.size<0>()` (the repaired form of do_split's cluster construction) prints as .rows
+    k = dict(self_struct='struct nv_dtree', types=DT_TYPES, calls=DT_CALLS, members=DT_MEMBERS, hooks=[size0_hook(DTREE_CPP, total_ok=True)])
+    pk = dict(k, calls=DT_CALLS + [(r'^operator\(\)\|typename tbase::t(const|mutable)ref \(const nano::tensor_size_t\)( const)?\|nano::tensor_t<nano::tensor_carray_storage_t, long, 1>', '{0}.p[{1}]'),
+                                   (r'^ctor\|nano::tensor_t<nano::tensor_vector_storage_t, long, 1>\|', 'nv_ixs_of({0})'),
+                                   (r'^operator\+=\|.*\|Eigen::MatrixBase<Eigen::Map<Eigen::Matrix<double, -1, 1, 0>, 0>\s*>', 'nv_row_add_at({&0}, {1})')],
+              members=[(r'^split\|nano::wlearner_t', 'base_split!'), (r'^group\|nano::cluster_t', 'nv_clu_group_split({self}, {0}, self)'),
+                       (r'^vector\|nano::tensor_t<nano::tensor_(marray|vector)_storage_t, double, 4>', 'nv_t4_vector'),
+                       (r'^size\|nano::tensor_base_t<long, 1', '{self}->n')] + DT_MEMBERS)
+    bk = dict(k, members=[(r'^critical_compatible\|nano::learner_t', 'nv_critical_compatible!'), (r'^do_split\|nano::wlearner_t', 'dtree_do_split')])
+    return dict(do_split=Fn('dtree_do_split', DTREE_CPP, 'do_split', flt='dtree_wlearner_t::do_split', **k),
+                do_predict=Fn('dtree_do_predict', DTREE_CPP, 'do_predict', flt='dtree_wlearner_t::do_predict', **pk),
+                # wlearner_t::split: the compatibility check, then the virtual do_split (here: the tree's)
+                base_split=Fn('base_split', 'src/wlearner.cpp', 'split', flt='wlearner_t::split', **bk))
+
+
+CACHE = r'^\(anonymous namespace\)::cache_t$'
+DF_TYPES = [(r'^nano::dataset_t$', 'struct nv_dataset'), (r'^nano::cluster_t$', 'struct nv_clu'),
+            (r'^nano::indices_t$|^nano::tensor_t<nano::tensor_vector_storage_t, long, 1>$', 'struct nv_ixn'),
+            (r'^std::deque<\(anonymous namespace\)::cache_t', 'struct nv_cq'), (CACHE + r'|^std::deque<.*cache_t.*>::value_type$', 'struct nv_cache'),
+            (r'^nano::dtree_node_t$|dtree_node_t>::value_type$', 'struct nv_node'),
+            (r'^nano::dtree_nodes_t$|^std::vector<nano::dtree_node_t>$', 'struct nv_nodesg'),
+            (r'^nano::stump_wlearner_t$', 'struct nv_stumpobj'), (r'^nano::wlearner_criterion$', 'int32_t'),
+            (r'^nano::tensor4d_t$|tensor_t<nano::tensor_vector_storage_t, double, 4>', 'struct nv_t4'),
+            (r'tensor_t<nano::tensor_carray_storage_t, double, 3>', 'struct nv_t3v'),
+            (r'^nano::tensor4d_dims_t$|^nano::tensor_dims_t<4>$|^std::array<long, 4', 'int64_t')]
+DF_CALLS = [(r'^operator=\|.*\|nano::parameter_t', '@drop'),
+            (r'^min\|const long &\(const long &, const long &\)', 'nv_min_i64({0}, {1})'),
+            (r'^no_fit_score\|', '(NV_NO_FIT)'),
+            (r'^ctor\|nano::tensor_t<nano::tensor_vector_storage_t, double, 4>\|void \(.*tdims\)', 'nv_t4_make({0})'),
+            (r'^cat_dims\|', 'nv_cat_dims0({0})'),      # dims -> the first dimension (the only one tracked)
+            (r'^ctor\|nano::stump_wlearner_t\|', 'nv_stump_make()'),
+            (r'^operator\[\]\|.*\|std::vector<nano::dtree_node_t', '(*nv_ng_at({&0}, {1}))'),
+            (r'^append\|void \(nano::tensor4d_t &, const nano::tensor3d_cmap_t &\)', 'nv_append({&0}, {1})'),
+            (r'^unique_features\|', 'nv_unique_features({&0})'),
+            (r'^move\|', '{0}'),
+            (r'^operator=\|.*\|std::vector<nano::dtree_node_t', 'nv_nodes_store({&0}, {&1})'),
+            (r'^operator=\|.*\|nano::tensor_t<nano::tensor_vector_storage_t, (double, 4|long, 1)>', '(({0}) = ({1}))'),
+            (r'^ctor\|nano::tensor_t<nano::tensor_carray_storage_t, double, 3>\|', '{0}')]
+DF_MEMBERS = [(r'^samples\|nano::dataset_t', 'nv_dataset_samples'), (r'^log_info\|', '@drop'),
+              (r'^emplace_back\|std::deque<.*\|#1$', 'nv_cq_push_root'), (r'^push_back\|std::deque<', 'nv_cq_push({self}, {&0}, &nodes)'),
+              (r'^empty\|std::deque<', '({self}->n == 0)'), (r'^front\|std::deque<', 'nv_cq_front({self}, &nodes)'), (r'^pop_front\|std::deque<', 'nv_cq_pop'),
+              (r'^size\|std::vector<nano::dtree_node_t', '{self}->n'), (r'^size\|nano::tensor_base_t<long, 1', '{self}->n'),
+              (r'^(emplace_back|push_back)\|std::vector<nano::dtree_node_t', 'nv_ng_push({self}, {&0}, &stump)'),
+              (r'^fit\|nano::wlearner_t', 'nv_stump_fit({self})'), (r'^feature\|nano::single_feature_wlearner_t', '{self}->m_feature'),
+              (r'^threshold\|nano::stump_wlearner_t', '{self}->m_threshold'), (r'^tables\|nano::single_feature_wlearner_t', '{self}->m_tables'),
+              (r'^split\|nano::wlearner_t', 'nv_stump_split_fit({self}, {&0})'), (r'^parameter\|', '@drop'),
+              (r'^indices\|nano::cluster_t', 'nv_clu_indices_n'), (r'^tensor\|nano::tensor_t<nano::tensor_vector_storage_t, double, 4>', 'nv_t4_tensor')]
+
+
+def dtree_fit_fn():
+    return Fn('dtree_do_fit', DTREE_CPP, 'do_fit', flt='dtree_wlearner_t::do_fit', self_struct='struct nv_dtree_fit', types=DF_TYPES, calls=DF_CALLS,
+              members=DF_MEMBERS, hooks=[nvhooks.param_hook(), size0_hook(DTREE_CPP)])
+
+
 def iter_loop_hook(code, elem):
     """iterator.loop(samples, feature, callback): the lambda is not translated; the overload that was resolved (by the
     std::function parameter type of the callee) must be the one for the expected kind of feature values"""
@@ -193,6 +341,25 @@ def iter_loop_hook(code, elem):
         P.note('select_iterator_t::loop(samples, feature, callback) -> nv_iter_loop')
         return f'nv_iter_loop({P.addr(me["inner"][0])}, {P.expr(args[0])}, {P.expr(args[1])}, {code})'
     return h
+
+
+def hinge_lemmas():
+    """the value proved for an active sample of a hinge is w * v + b (linear.h); with the representation invariant b = -threshold
+    * w (the only assignment to tables[1] in hinge.cpp's do_fit; ASSUMED, do_fit is not under contract) this is, over the
+    reals, the MARS hinge of include/nano/wlearner/hinge.h on BOTH sides of the threshold (inactive side: prediction 0)"""
+    import os
+    src = {'file': os.path.join(astload.VERIF, 'specs/C10/spec.py')}
+    hdr = ('(declare-const w Real)(declare-const b Real)(declare-const t Real)(declare-const v Real)\n'
+           '(define-fun pos ((x Real)) Real (ite (< 0.0 x) x 0.0))\n(assert (= b (* (- t) w)))\n')
+    # prediction as proved: active ? w * v + b : 0
+    left = '(ite (< v t) (+ (* w v) b) 0.0)'
+    right = '(ite (>= v t) (+ (* w v) b) 0.0)'
+    return [VC('lemma/hinge left: (v < t ? w*v + b : 0) == (-w) * (t - v)+  given b == -t*w', hdr + f'(assert (not (= {left} (* (- w) (pos (- t v))))))',
+               about='left hinge = beta * (threshold - x)+ with beta = -tables[0] (reals)', source=src),
+            VC('lemma/hinge right: (v >= t ? w*v + b : 0) == w * (v - t)+  given b == -t*w', hdr + f'(assert (not (= {right} (* w (pos (- v t))))))',
+               about='right hinge = beta * (x - threshold)+ with beta = tables[0] (reals)', source=src),
+            VC('lemma/canary: b == -t*w with a non-zero slope and an active sample is satisfiable', hdr + '(assert (not (= w 0.0)))(assert (< v t))',
+               about='vacuity guard (must be sat)', source=src, expect='sat')]
 
 
 def targs(*want):
@@ -240,8 +407,31 @@ def build(tier):
     u = util_fns()
     targets.insert(0, Target('wl_merge', [u['merge'], u['merge_pred']], UH))    # the longest proof starts first
     targets.append(Target('sfw_scale', [u['sfw_scale'], u['scale']], UH, replace=['wl_scale'], loops=0))
+    LNH = 'specs/C10/linear.h'
+    for cls in ('affine', 'hinge'):
+        f = linear_fns(cls)
+        targets.append(Target(f'{cls}_do_predict', f['predict'], LNH))
+        targets.append(Target(f'{cls}_do_split', f['split'], LNH))
+    DH = 'specs/C10/dtree.h'
+    targets.append(Target('dtree_do_split', [dtree_fns()['do_split']], DH))
+    d = dtree_fns()
+    targets.append(Target('dtree_do_predict', [d['do_predict'], d['base_split'], d['do_split']], DH, replace=['dtree_do_split'],
+                          loops=1, defines=['NV_DTREE_CALLER']))
+    targets.append(Target('dtree_do_fit', [dtree_fit_fn()], 'specs/C10/dtree_fit.h'))
+    score = Fn('make_score', 'src/wlearner/criterion.cpp', 'make_score', flt='nano::wlearner::make_score', types=[(r'^nano::wlearner_criterion$', 'uint8_t')],
+               calls=[(r'^max\|const double &\(const double &, const double &\)', 'nv_max_d({0}, {1})'), (r'^epsilon\|', '(NV_EPS)'),
+                      (r'^AIC\|', 'nv_AIC'), (r'^AICc\|', 'nv_AICc'), (r'^BIC\|', 'nv_BIC')])
+    targets.append(Target('make_score', [score], 'specs/C10/criterion.h'))
+    MH = 'specs/C10/trymerge.h'
+    t = try_merge_fns()
+    targets.append(Target('base_try_merge', [t['base']], MH))
+    targets.append(Target('sfw_do_try_merge', [t['helper']], MH))
+    t = try_merge_fns()
+    targets.append(Target('table_try_merge', [t['table'], t['helper'], t['feature']], MH))
+    t = try_merge_fns()
+    targets.append(Target('affine_try_merge', [t['affine'], t['helper'], t['feature']], MH))
     return {
-        'targets': targets, 'vcs': [],
+        'targets': targets, 'vcs': hinge_lemmas(),
         'decided': [
             'loop_scalar / loop_sclass / loop_mclass: op(i, value) is called only for 0 <= i < samples.size(), in increasing i, only for given values (finite / >= 0 / first label >= 0), with the value of sample i, and for every given value exactly once (ghost sample position); the enclosing functions hand the given samples and feature to select_iterator_t::loop once, with the callback overload of the right value kind',
             'stump: do_predict adds tables[value < threshold ? 0 : 1] to outputs row i exactly once for a given value and nothing for a missing one; split / do_split assign group (value < threshold ? 0 : 1) to samples(i) under the same rule with the same feature and the member threshold; cluster has dataset.samples() x 2',
@@ -249,14 +439,21 @@ def build(tier):
             'nano::find (single-label): result is -1 or the position of hash(value) in hashes; -1 implies the hash is absent (sorted hashes)',
             'wlearner::scale: every row i of tables is multiplied exactly once by scale[min(i, size-1)] = the factor of group i (the single factor if size == 1), all indices in range for size in {1, rows}; single_feature_wlearner_t::scale applies it to its own tables',
             'wlearner::merge: try_merge only through a non-null learner into an earlier slot; a slot is nulled only right after the successful try_merge that absorbed it; the learner holding the predictions of any given learner survives remove_if/erase (predicate = slot is null, whole vector, erase of exactly the returned tail); the vector does not grow',
+            'try_merge (what wlearner::merge assumes of it): wlearner_t::try_merge (inherited by stump, hinge, dtree: static_asserts in the driver) never merges; single_feature_wlearner_t::do_try_merge succeeds iff same feature and same coefficient dims; table_wlearner_t::try_merge succeeds only for another table learner (dynamic type) with the same feature, dims, and element-wise identical hashes and hash2tables (ghost positions); affine_wlearner_t::try_merge succeeds iff the other is an affine learner with the same feature and dims; on success the coefficient at the ghost position is old + other (Eigen += on equal sizes) and nothing else is written, on refusal nothing is written; `other` is never written; a null other is refused',
+            'affine: do_predict adds tables[0] * value + tables[1] (at the ghost output coefficient, IEEE operations uninterpreted) to outputs row i exactly for a given value, no other row is written; do_split assigns the single group 0 to samples(i) exactly for a given value',
+            'hinge: do_predict adds tables[0] * value + tables[1] to outputs row i iff the value is given and on the active side (left: value < threshold, right: value >= threshold), nothing otherwise and no other row is written; do_split assigns group 0 under the same condition (m_hinge one of the two enumerators); over the reals and with tables[1] == -threshold * tables[0] this is the MARS hinge on both sides (SMT lemmas)',
+            'dtree do_split: the walk of any sample through the sibling pairs of m_nodes is a single path that starts at the root pair, follows at every visited pair the stump rule on the sample\'s own value of that pair\'s feature (value < threshold ? first : second child), ends at the first missing value without a group or at a leaf pair with group m_table + side, a row of m_tables; node / table indices in range; samples outside the argument are never assigned; depth 1 (root pair is a leaf pair): one visit, group m_table(root) + (value < threshold ? 0 : 1) = the stump rule',
+            'dtree do_fit (structure only): nodes are stored in sibling pairs at even positions, both members of a pair carry the feature / threshold of the stump fitted for it and are both leaves or both inner nodes; a leaf pair gets the next two rows of m_tables, filled from rows 0 and 1 of that stump\'s tables in this order; an inner member\'s m_next is the later, in-range, even position of the pair fitted on its side (linked exactly when its queued cache is processed); members are replaced iff the returned score is not no_fit_score; depth 1: the stump\'s tables are rows 0 and 1 of m_tables -- this is the representation invariant dtree do_split / do_predict assume',
+            'wlearner::make_score (index discipline only): rss is clamped below by 1e3 * epsilon and passed with (k, n) unchanged and in order to exactly the formula the criterion names (AIC / AICc / BIC uninterpreted), the plain criterion returns the clamped rss',
+            'dtree do_predict: through wlearner_t::split (compatibility check, then do_split) the row i of outputs receives exactly one update, the m_tables row of the group split() reports for samples(i), and none if there is no group; depth 1: the stump_do_predict contract',
         ],
         'not_decided': [
-            'minimum RSS over the hypothesis class (all do_fit functions, accumulators, criterion): optimisation over float moment sums',
-            'hinge / affine predict and split (Eigen expressions over the feature value), dtree, depth-1 tree == stump',
-            'do_try_merge (tables added element-wise) and table/affine try_merge (dynamic_cast): the sum-preservation of merge rests on the assumed try_merge contract',
-            'numeric value of the scaled / added coefficients (Eigen += and *= are recorded, not computed)',
+            'minimum RSS over the hypothesis class (all do_fit functions, accumulators, values of the criteria): optimisation over float moment sums; accumulator_t (moment sums, cluster()) is not under contract',
+            'termination of the breadth-first walks of dtree do_split / do_fit; the scores, samples and stopping rule of dtree do_fit (stump fits are opaque)',
+            'hinge do_fit stores tables[1] = -threshold * tables[0] (hypothesis of the SMT lemmas)',
+            'numeric value of the scaled coefficients (Eigen *= is recorded, not computed); sums of merged / predicted coefficients are exact only as uninterpreted IEEE terms',
             'nano::find for multi-label values (detail::hash over the row) stays an assumed contract',
-            'no native replay driver (the check is green; counterexamples would be (value, threshold, index) tuples)',
+            'native replay only for the dtree groups() finding (replay/C10_replay.cpp); other counterexamples would be (value, threshold, index) tuples',
         ],
         'assumptions': [
             'select_iterator_t::loop(samples, feature, callback) calls callback(feature, 0, values) once with one value per sample, of the kind of the chosen overload (src/dataset/iterator.cpp)',
@@ -267,10 +464,45 @@ def build(tier):
             'callers: outputs has one row per sample (learner_t::predict asserts it); samples index valid dataset samples; scale.size() in {1, tables.size<0>()} (the function\'s own assert)',
             'nano::find for multi-label values returns -1 or a position in [0, hashes.size()) and is a pure function of (hashes, value)',
             'std::lower_bound returns the partition point of a sorted range (ghost index); hashes are sorted (make_hashes)',
-            'wlearner_t::try_merge(other): false for a null other; on success *this is equivalent with the sum of the two (include/nano/wlearner.h)',
+            'wlearner::merge uses the virtual try_merge by the contract proved for each implementation (targets *_try_merge): false for a null other; on success *this holds the sum of the two; virtual dispatch itself is not modelled',
+            'RTTI: dynamic_cast<const X*>(p) is null iff p is null or the dynamic type (ghost tag) is not X or derived from X; dense / kbest / ksplit / dstep derive from table_wlearner_t, everything but dtree from single_feature_wlearner_t',
+            'tensor operator== (include/nano/tensor/numeric.h): true implies equal sizes and equal elements at every index (given at ghost positions); tensor dims() == compares all four dimensions; size() is a function of dims; Eigen `a += b` on vector maps requires equal sizes (obligation) and adds coefficient-wise',
+            'try_merge is called with two different learners (distinct slots of a vector of unique_ptr)',
+            'ghost-element model of outputs / tables for affine, hinge: one output coefficient, one row of outputs, all other rows folded into one cell; Eigen statement `outputs.vector(i) += w * value + b` lifted by engine/eigencw (coefficient-wise semantics of Eigen assumed); outputs and tables have the same coefficient shape (learner_t::predict / the functions\' own assert)',
+            'm_hinge is hinge_type::left or ::right (set by do_fit; read() does not re-validate the stored byte: for any other value do_predict behaves as right while do_split assigns no group)',
+            'dtree representation invariant (proved for what do_fit stores, target dtree_do_fit; assumed of *this in do_split / do_predict; not re-validated by read()): m_nodes non-empty, position 0 and every m_next != 0 is the position of a sibling pair inside m_nodes, both members of a pair are leaves (m_next == 0) or both are not, a leaf pair has consecutive tables m_table, m_table + 1 inside m_tables; instantiated at the positions the code reads',
+            'std::deque is FIFO and stays below max_size(); every entry read by front() was pushed before (pushes are checked to carry a pair position: assume-guarantee over the queue); indices_t / cluster_t abstracted to the ghost sample (cluster_t constructor: no groups; group(s) in [-1, groups); indices(g) = samples of group g)',
+            'stump_wlearner_t::split inside dtree by the contract proved in target stump_split (per position), lifted to samples: a sample gets group (value < threshold ? 0 : 1) iff it is among the samples and its value is given',
+            'dtree do_predict: samples index valid dataset samples; groups of other samples are rows of m_tables (dtree_do_split.postcondition.3 at those samples); learner_t::critical_compatible throws or returns without other effects; indices_t(indices_cmap_t) copies',
+            'm_tables.size() >= m_tables.size<0>() (non-empty target dims)',
+            'dtree do_fit: stump_wlearner_t::fit either fails or stores a feature, a threshold and a 2-row tables tensor; its split() has 2 groups; append(tables, t) adds t as the last row and keeps the others; std::vector / std::deque (FIFO, below max_size()) abstracted to the ghost pair and the caches that link its members (queue invariant by assume-guarantee: every pushed cache refers to the node appended just before, asserted); registered parameter domains (max_depth, min_split in [1, 10]); default member initialisers of cache_t (m_depth 0, m_parent 0) are the zero struct, those of dtree_node_t are pinned by a static_assert',
             'std::remove_if keeps exactly the elements for which the predicate is false, in order, at positions not after their old ones; vector::erase(first, end()) truncates at first',
             'single_feature_wlearner_t::vector(k) is m_tables.vector(k), tables() is m_tables (inline accessors in single.h); feature() is extracted',
             'lambda captures by reference denote the enclosing function\'s variables of the same name (closure objects are modelled as explicit argument lists / capture structs)',
         ],
         'trusted': [],
     }
+
+
+_REPLAY = {}
+
+
+def replay(rp):
+    """dtree_do_split.postcondition.7 (one split group per leaf table): the verifier's counterexample is the input class
+    "m_tables.size() != m_tables.size<0>()", i.e. a target with more than one output.  Replayed on the real library: an
+    in-memory datasource with a K-class target, a real dtree_wlearner_t fitted on it, the public split().  Other
+    targets have no native driver."""
+    import replaylib
+    out = {'reproduced': False, 'runs': []}
+    ids = [fo['id'] for fo in rp['failed_obligations']]
+    if rp['target'] != 'dtree_do_split' or not any(i.endswith('dtree_do_split.postcondition.7') for i in ids):
+        out['note'] = 'no native driver for this obligation: the replay file carries the verifier output only'
+        return out
+    if 'exe' not in _REPLAY:
+        _REPLAY['exe'] = replaylib.build_with_library('replay/C10_replay.cpp', 'C10_replay')
+    for n, k in ((40, 3), (12, 2)):
+        rc, so, se = replaylib.run_driver(_REPLAY['exe'], [n, k])
+        out['runs'].append({'samples': n, 'classes': k, 'exit': rc, 'output': so.strip()[:2000]})
+        if rc == 1:
+            out['reproduced'] = True
+    return out
